@@ -440,6 +440,9 @@ def run(pid):
         groups.append((cfg, paths, how))
     stats = replay_and_validate(pid, groups, wd, verdict, check_totality=(pid == "C04"))
     log("replayed %d behaviours (%d events), drift in %d" % (stats["replayed"], stats["events"], stats["drift"]))
+    if pid == "C02":
+        atomicity = atomic_part(wd, verdict, tr)
+        cfg_evidence.append(atomicity)
     for k, v in stats["drift_kinds"].items():
         print("DRIFT property=%s count=%d kind=%s" % (pid, v, k))
     rc = verdict.finish()
@@ -451,7 +454,7 @@ def run(pid):
         configs=cfg_evidence,
         real_events=stats["events"],
         drift_traces=stats["drift"], drift_kinds=stats["drift_kinds"], binding_selftest=stats.get("selftest"),
-        monitors=MONITORS[pid],
+        monitors=MONITORS[pid] + (["OneMessageAtATime"] if pid == "C02" else []),
         known_findings_seen=sorted(verdict.known_seen),
         rule="behaviours = maximal paths of the history variable over every explored edge of the bounded model (edges configs) and "
              "seeded random walks (simulate configs); each is replayed through threshold.Scheme.HandleMessage on real Schemes in a live "
@@ -467,10 +470,51 @@ def run(pid):
 
 
 
+def atomic_part(wd, verdict, tr, only=None):
+    """spec/RBCAtomic.tla: the lemma 'Receive must be atomic per instance' (holds with Atomic = TRUE, refuted with FALSE) and the
+    probe that binds the assumption to the code (harness/cmd/drv/rbcser.go)."""
+    for atomic, want in (("TRUE", None), ("FALSE", "ConflictDetected")):
+        name = "A_%s" % atomic
+        with open(os.path.join(wd, name + ".cfg"), "w") as f:
+            f.write('CONSTANTS Atomic = %s TraceFile = ""\nINIT Init\nNEXT Next\nINVARIANT ConflictDetected\n' % atomic)
+        r = vlib.run_tlc("RBCAtomic", name + ".cfg", ["RBCAtomic.tla"], workdir=wd, workers=1, timeout=300)
+        if r.violation != want:
+            raise vlib.CheckError("RBCAtomic with Atomic = %s: expected %r, TLC reports %r" % (atomic, want, r.violation))
+    cases = only or [dict(mode=m, second=x) for m in ("keygen", "sign") for x in ("conflict", "same", "ack", "p2p", "other-round")] * (1 if tr == "quick" else 5)
+    drv = vlib.build_harness()
+    out = os.path.join(wd, "serial.ndjson")
+    rc, _, err = vlib.run_driver(drv, ["rbcser"], stdin_obj=dict(cases=cases), stdout_path=out, timeout=600)
+    if rc != 0:
+        raise vlib.CheckError("rbcser driver failed (rc=%d): %s" % (rc, err))
+    with open(os.path.join(wd, "A_trace.cfg"), "w") as f:
+        f.write('CONSTANTS Atomic = TRUE TraceFile = "serial.ndjson"\nINIT TInit\nNEXT TNext\n')
+    r = vlib.run_tlc("RBCAtomic", "A_trace.cfg", ["RBCAtomic.tla"], workdir=wd, workers=1, timeout=300, keep_prints=["VIOL", "DRIFT", "END"])
+    ends = [o for (t, o) in r.prints if t == "END"]
+    if not ends or ends[0]["n"] != len(cases):
+        raise vlib.CheckError("RBCAtomic validation did not consume all %d probe results\n%s" % (len(cases), r.out[-1500:]))
+    nd = 0
+    for t, o in r.prints:
+        if t == "VIOL":
+            verdict.violation("OneMessageAtATime/%s/%s" % (o["mode"], o["second"]),
+                              "a second message (%s) of a live %s session entered the reliable-broadcast instance while the first one was still being "
+                              "processed in it: Receive is not atomic per instance (the assumption under which RBC.tla proves Agreement)" % (o["second"], o["mode"]),
+                              dict(property="C02", part="atomicity", case=cases[o["t"]]))
+        elif t == "DRIFT":
+            nd += 1
+    if nd:
+        print("DRIFT property=C02 count=%d kind=atomicity probe could not be set up" % nd)
+    log("atomicity: lemma holds with Atomic, refuted without; %d probes on real Schemes" % len(cases))
+    return dict(config="RBCAtomic", how="lemma + probe", probes=len(cases), probe_setup_failures=nd)
+
+
 def replay(pid, path):
     """re-execute a saved violating behaviour on the current tree"""
     with open(path) as f:
         o = json.load(f)
+    if o.get("part") == "atomicity":
+        verdict = vlib.Verdict(pid)
+        atomic_part(vlib.scratch(pid + "r"), verdict, "quick", only=[o["case"]] * 3)
+        return verdict.finish()
     cfg = {k: v for k, v in o["config"].items()}
     cfg["AdvSet"] = []
     cfg["HonestB"] = [tuple(x) for x in cfg.get("HonestB", [])]
